@@ -971,10 +971,10 @@ class OdeSystem(object):
                     "can lead to memory issues if no event terminates the integration.",
                     category=RuntimeWarning)
 
-        self.__fix_dt_dir(tf, self.__t[self.counter])
-
         if D.ar_numpy.abs(self.dt) > D.ar_numpy.abs(tf - self.__t[self.counter]):
             self.dt = D.ar_numpy.abs(tf - self.__t[self.counter]) * 0.5
+
+        self.__fix_dt_dir(tf, self.__t[self.counter])
 
         total_steps = self.__alloc_space_steps(tf)
 
@@ -997,6 +997,7 @@ class OdeSystem(object):
         self.__allocate_soln_space(total_steps)
         try:
             while (implicit_integration or (self.dt != 0 and D.ar_numpy.abs(tf - self.__t[self.counter]) >= D.tol_epsilon(self.__y[self.counter].dtype))) and not end_int:
+                self.__fix_dt_dir(tf, self.__t[self.counter])
                 if not implicit_integration and D.ar_numpy.abs(self.dt) > D.ar_numpy.abs(tf - self.__t[self.counter]):
                     is_final_step = True
                     dt = (tf - self.__t[self.counter])
